@@ -612,6 +612,11 @@ class MspHostOracles(ScoreOracles):
                             affs(sl.len) if isinstance(sl, Ref) and isinstance(sl.len, Int) else repr(getattr(sl, "len", None))))
             return Opaque("V", {"piece:%d" % sum(1 for e in self.ev if e[0] == "piece")})
         if path == "Exts::from_slice_bounds":
+            r0 = args[0]
+            whole = isinstance(r0, Ref) and (r0.len is None or (isinstance(r0.len, int) and r0.len == self.N) or (isinstance(r0.len, Int) and r0.len.is_conc() and r0.len.val == self.N)) \
+                and (r0.off in (0, None) or (isinstance(r0.off, Int) and r0.off.is_conc() and r0.off.val == 0))
+            if not whole:
+                self.ev.append(("exts-on-part", affs(r0.off) if isinstance(r0.off, Int) else repr(r0.off), affs(r0.len) if isinstance(r0.len, Int) else repr(r0.len)))
             self.ev.append(("exts", "seq" in tags_of(recv(it, args[0])), affs(args[1]), affs(args[2])))
             return Adt(EXTS, 0, [Int(8, False, bits=[TOP] * 8)], tags=frozenset({"pexts:%d" % sum(1 for e in self.ev if e[0] == "exts")}))
         if name == "bucket" and "MspIntervalP" in path:
@@ -703,6 +708,34 @@ def msp_host_tables(F, rep, rule_score="C08.1", rule_piece="C08.2"):
                                 piece_problems.append("emitted triple %d is not (bucket of interval %d's minimizer, that piece's extensions, that piece): %r" % (i, i, t))
                     else:
                         inc.append("result of msp_sequence is %r" % (res,))
+        # ---- long reads: one past every size constant the host mentions (window sizes, cut-offs).  Whatever windows the host scans,
+        # every boundary-extension query must be made against the whole read, at the piece's own position
+        if nm == "msp_sequence":
+            from .dt_graph import size_thresholds
+            for c in size_thresholds(F, body)[-2:]:
+                Nbig = c + 1
+                rep.evaluations += 1
+                h = MspHostOracles((), Nbig)
+                it = Interp(F, False, h)
+                h.it = it
+                seq = Ref(Cell(Opaque("[u8]", {"seq"}), "seq"))
+                perm = Ref(Cell(Opaque("[usize]", {"perm"}), "perm"))
+                try:
+                    it.call_body(body, [Int(64, False, val=h.K), seq, Adt("std::option::Option", 1, [perm]), mkbool(False)])
+                except (Undecided, Unsupported) as e:
+                    inc.append("read of %d bases: %s" % (Nbig, e))
+                    continue
+                except Diverge as e:
+                    piece_problems.append("msp_sequence diverges on a read of %d bases: %s" % (Nbig, e))
+                    continue
+                part = [e for e in h.ev if e[0] == "exts-on-part"]
+                if part:
+                    piece_problems.append("on a read of %d bases the boundary extensions of a piece are computed against a part of the read (offset %s, length %s) instead "
+                                          "of the whole read: a piece at the edge of that part loses the read's base next to it" % (Nbig, part[0][1], part[0][2]))
+                ps = [e for e in h.ev if e[0] == "piece"]
+                es = [e for e in h.ev if e[0] == "exts"]
+                if len(ps) != len(es) or any(p_[2:] != e_[2:] for p_, e_ in zip(ps, es)):
+                    piece_problems.append("on a read of %d bases pieces are cut at %s but their extensions are taken at %s" % (Nbig, [p_[2:] for p_ in ps][:3], [e_[2:] for e_ in es][:3]))
         # ---- reads of exactly k bases hold one k-mer: the host must still run the scanner on them and emit what it returns
         short_problems = []
         for N in (4, 5):
